@@ -27,6 +27,8 @@ def canonical_args(i=0):
         ("optref", [A.AOptRef(0, "u64")]),
         ("opt", [A.AOpt(0, "u32")]),
         ("opt-pod", [A.AOpt(0, "Pod1")]),
+        ("opt-rawptr", [A.AOpt(0, "*const u8")]),
+        ("opt-rawmutptr", [A.AOpt(0, "*mut u32")]),
         ("result", [A.ARes(0, "u8", "i32")]),
         ("into", [A.AInto(0, "u64", "u32")]),
         ("callback", [A.ACallback(0, "u32", False)]),
@@ -43,7 +45,7 @@ def canonical_rets(recv):
     R = gen
     mut = recv in ("mut", "pinmut")
     own = recv == "own"
-    out = [("unit", R.RUnit()), ("scalar", R.RVal("u64")), ("pod", R.RVal("Pod1")), ("opt", R.ROpt("u32")), ("opt-pod", R.ROpt("Pod1")),
+    out = [("unit", R.RUnit()), ("scalar", R.RVal("u64")), ("pod", R.RVal("Pod1")), ("opt", R.ROpt("u32")), ("opt-pod", R.ROpt("Pod1")), ("opt-rawptr", R.ROpt("*const u8")),
            ("result", R.RRes("u8", "i32")), ("int-io", R.RIntRes("u64", "io")), ("int-unit-payload", R.RIntRes("()", "unit")),
            ("int-user", R.RIntRes("Pod1", "UErr"))]
     if recv in ("ref", "mut", "own"):
